@@ -39,7 +39,7 @@ Path(b, ss) == [base |-> b, sels |-> ss]
 
 (* The three coercions of DESIGN.md 3.1 on the model's value universe        *)
 (* (integers; short strings, of which only the listed ones are numeric)      *)
-NumOfStr(s) == CASE s = "0" -> 0 [] s = "1" -> 1 [] s = "2" -> 2 [] s = "7" -> 7 [] s = "10" -> 10 [] OTHER -> 0
+NumOfStr(s) == CASE s = "0" -> 0 [] s = "1" -> 1 [] s = "2" -> 2 [] s = "7" -> 7 [] s = "10" -> 10 [] s = "-1" -> -1 [] OTHER -> 0
 NumOf(v) == CASE v.t = "num" -> v.n
               [] v.t = "bool" -> IF v.b THEN 1 ELSE 0
               [] v.t = "str" -> NumOfStr(v.s)
